@@ -5,6 +5,12 @@ props = [json.loads(l) for l in open(os.path.join(VERIF, "properties.jsonl"))]
 
 # id -> (technique, level text, level note, design ref); absent = not yet claimed
 CLAIMED = {
+    "C01": ("Lean 4 theorem by mutual structural induction over the schema type + kernel-checked instance on the regenerated class table + differential correspondence",
+            "Kio.C01.roundtrip: for every coherent schema, every well-typed canonical value and every suffix, dec (enc v ++ rest) = (v, rest); Kio.C01.shipped_coherent: all 1629 regenerated classes are coherent (decide +kernel). The model's enc/dec are tied to entity_writer/entity_reader by a differential run (real instances, three tails) on a seed-rotated subset of classes (all classes in thorough).",
+            "Lean kernel; axioms ⊆ {propext, Classical.choice, Quot.sound}; translator + correspondence harness; CPython float ops = fl53/pyRound model; restriction TaggedCanon (a tagged value == its default is the default itself).", "§6.1"),
+    "C10": ("Lean 4 theorems (error classes, suffix consumption, linear step bound on an instrumented decoder) + mutation/random differential correspondence on all classes",
+            "Kio.C10.errors_allowed / consumes_prefix / linear_steps for every coherent schema and every byte string; instance on the 1629 regenerated classes; keyError_reachable_when_not_skipping documents the repaired defect. Correspondence: ~14 malformed inputs per class (quick) through the real reader vs the model, plus direct evaluation (no internal exception class, consumed ≤ given, re-encodable, wall clock).",
+            "Lean kernel; same axioms; re-encodability and the time bound on *failing* decodes are checked on the code only (not proved).", "§6.10"),
     "C11": ("Lean 4 theorems on the primitive codec model + differential correspondence on all 66 functions",
             "Universal Lean theorems (round trip with suffix, minimal varints, zig-zag bijection, out-of-domain errors) about a hand model of kio.serial.readers/writers; the model is tied to the code by a differential run over every public function (exhaustive on small domains).",
             "Lean kernel; axioms ⊆ {propext, Classical.choice, Quot.sound}; hand model tied by correspondence; CPython struct/int semantics trusted.", "§6.11"),
